@@ -133,6 +133,11 @@ def diff (F : TFld α) (c : Nat) : SEx α → SEx α
   | .sat v lo hi => .add (.add (.mul (.in3 v lo hi) (diff F c v)) (.mul (.cmp .lt v lo) (diff F c lo)))
                          (.mul (.cmp .gt v hi) (diff F c hi))
 
+/-- `a ** b` with a real (non-integer, parameter- or variable-valued) exponent, for a positive base: exp(b · ln a).
+Derived syntax: meaning and derivative are those of `exp`, `mul`, `ln` (Properties/C02.lean: `C02_powr_meaning`,
+`C02_powr_derivative`). -/
+def powr (a b : SEx α) : SEx α := .fn1 .exp (.mul b (.fn1 .ln a))
+
 end SEx
 
 /-- selection of elements of a variable / parameter -/
@@ -161,6 +166,9 @@ inductive Ex (α : Type) where
   /-- `Mat_Mul(A, a)`: parameter `q` holds a matrix with `cols` columns, row-major -/
   | matvec (q : Nat) (cols : Nat) (a : Ex α)
 deriving Inhabited
+
+/-- element-wise `a ** b` with a real exponent and a positive base (`SEx.powr` after lowering) -/
+def Ex.powr {α : Type} (a b : Ex α) : Ex α := .fn1 .exp (.mul b (.fn1 .ln a))
 
 /-- layouts: sizes of the variables and of the parameters, in address order -/
 structure Layout where
